@@ -281,6 +281,31 @@ func ruleWhoWritesTables(w *World, r *Report, rSingle, rCache string, la *LockAn
 	if ro.setSingleton != nil {
 		doors[ro.setSingleton] = "setSingleton"
 	}
+	// the creation chain may file the instance it has just produced under the sibling descriptors
+	// recorded for the same registration (a repair of D1 does) - but not under a descriptor it
+	// looks up in the registry at that moment: what is found there was registered by someone else
+	chain := map[*FuncInfo]string{}
+	if ro.createInstance != nil {
+		chain[ro.createInstance] = "createInstance"
+	}
+	for c := range ro.creators {
+		if t := w.Decls[c]; t != nil {
+			chain[t] = t.Name()
+		}
+	}
+	for f, why := range w.HelperClosure(chain) {
+		looksUp := false
+		for _, c := range callsIn(f.Decl.Body, true) {
+			if cal := callee(f.Pkg.TypesInfo, c); w.IsFn(cal, w.Godi, "(*provider).findDescriptor") || w.IsFn(cal, w.Godi, "(*provider).findGroupDescriptors") {
+				looksUp = true
+			}
+		}
+		if !looksUp {
+			if _, have := doors[f]; !have {
+				doors[f] = "creation chain: " + why
+			}
+		}
+	}
 	doors = w.HelperClosure(doors)
 	for _, a := range accesses {
 		fi := a.Unit.fi
